@@ -49,3 +49,60 @@ Print Assumptions C10_cuts_at_multiples.
 Print Assumptions C10_untouched_cue.
 Print Assumptions C10_untouched_list.
 Print Assumptions C10_count.
+
+(* ---- audit follow-ups (Proofs/OpsFragExtra.v) ---- *)
+From Coq Require Import Bool.
+From Astisub Require Import Proofs.UnfragProofs Proofs.InverseProofs Proofs.OpsFragExtra.
+
+(* every piece of a cue of positive length has positive length (no empty piece is ever produced) *)
+Theorem C10_pieces_positive : forall f x, 0 < f -> st x < en x -> Forall (fun p => st p < en p) (pieces f x).
+Proof. exact pieces_positive. Qed.
+Theorem C10_fragment_positive : forall f l, 0 < f -> Forall (fun x => st x < en x) l ->
+  Forall (fun p => st p < en p) (fragment f l).
+Proof. exact fragment_positive. Qed.
+(* the cuts of a cue (where one piece ends and the next begins) are exactly the multiples of f STRICTLY inside it *)
+Theorem C10_cuts_exact : forall f x, 0 < f -> forall c,
+  In c (cuts (pieces f x)) <-> (is_mult f c /\ st x < c < en x).
+Proof. exact pieces_cuts_exact. Qed.
+Theorem C10_cuts_inside : forall f x, 0 < f -> Forall (fun c => st x < c < en x) (cuts (pieces f x)).
+Proof. exact pieces_cuts_inside. Qed.
+(* the timeline at list level, with multiplicity: for every instant t and every property q of a cue's content
+   (text, voices, styles, region - not times, not identity), the number of cues on screen at t whose content
+   satisfies q is the same before and after *)
+Theorem C10_timeline_count : forall q t f l, content_only q -> 0 < f ->
+  cover_count q t (fragment f l) = cover_count q t l.
+Proof. exact fragment_cover_count. Qed.
+(* ... in particular the set of texts on screen at every instant (the [covers] of C11) *)
+Theorem C10_timeline_covers : forall f l, 0 < f -> forall k t, covers k t l <-> covers k t (fragment f l).
+Proof. exact fragment_covers. Qed.
+Theorem C10_has_text_is_content : forall k, content_only (has_text k).
+Proof. exact has_text_content. Qed.
+(* identity: every piece but the last is a copy (fresh identity: 0 in the model), the last piece is the original
+   object - same identity, only its start moved to the last cut *)
+Theorem C10_pieces_uid : forall f x, map uid (pieces f x) = repeat 0%N (length (pieces f x) - 1) ++ [uid x].
+Proof. exact pieces_uid. Qed.
+Theorem C10_pieces_last : forall f x,
+  exists s, last (pieces f x) x = set_st x s /\ (s = st x \/ In s (cuts (pieces f x))).
+Proof. exact pieces_last. Qed.
+
+(* non-vacuity: two texts, overlap and nesting, a cue containing no multiple, a zero-length cue, period 4 *)
+Example C10_example_text :
+  map (fun x => (uid x, st x, en x, item_text x)) (fragment 4 ex_frag) =
+  [(0%N, 0, 4, [65%N]); (2%N, 1, 3, [66%N]); (0%N, 4, 8, [65%N]); (3%N, 4, 5, [65%N]); (4%N, 6, 6, [66%N]);
+   (0%N, 6, 8, [65%N]); (1%N, 8, 10, [65%N]); (5%N, 8, 9, [65%N])].
+Proof. exact ex_frag_result. Qed.
+Example C10_example_cuts : cuts (pieces 4 (ex_cue 1 0 10 65)) = [4; 8] /\ cuts (pieces 4 (ex_cue 2 1 3 66)) = [] /\
+  map uid (pieces 4 (ex_cue 1 0 10 65)) = [0; 0; 1]%N.
+Proof. exact ex_frag_cuts. Qed.
+Example C10_example_cover :
+  cover_count (has_text [65%N]) 8 ex_frag = 2%nat /\ cover_count (has_text [65%N]) 8 (fragment 4 ex_frag) = 2%nat.
+Proof. exact ex_frag_cover. Qed.
+
+Print Assumptions C10_pieces_positive.
+Print Assumptions C10_fragment_positive.
+Print Assumptions C10_cuts_exact.
+Print Assumptions C10_cuts_inside.
+Print Assumptions C10_timeline_count.
+Print Assumptions C10_timeline_covers.
+Print Assumptions C10_pieces_uid.
+Print Assumptions C10_pieces_last.
